@@ -128,16 +128,24 @@ def case_series(case):
         "domain": {"nx": nx, "ny": ny, "xmax": xmax, "ymax": ymax, "nz": 8, "modes": [nx, ny], "ref_lat": rlat, "ref_lon": rlon},
         "towers": [{"name": "mast", "lat": lat, "lon": lon, "z_m": 5 if case["ints"] else 5.0}],
         "met": met, "solver": {"closure": case["closure"], "footprint": True, "precision": "double"},
+        "parallel": {"use_cache": bool(case.get("cache"))},
     })
     v = []
     worst = 0.0
     runs = {"timeseries": itf.run_bldfm_timeseries(cfg, cfg.towers[0]), "multitower": itf.run_bldfm_multitower(cfg)["mast"]}
+    if case.get("cache"):
+        # the same session again: everything is now answered from the result cache the first pass filled
+        runs["timeseries-second-pass"] = itf.run_bldfm_timeseries(cfg, cfg.towers[0])
     if case.get("parallel"):
         for strat in ("towers", "time"):
             runs["parallel-" + strat] = itf.run_bldfm_parallel(cfg, max_workers=2, parallel_over=strat)["mast"]
     for how, res in runs.items():
         for wd, r in zip(dirs, res):
-            b, e = _bearing_error(r, xmax, ymax, wd)
+            try:
+                b, e = _bearing_error(r, xmax, ymax, wd)
+            except Exception as ex:  # the returned grid does not even fit the returned field
+                v.append({"sub": "bearing-series", "sig": "bearing-series/grid-mismatch", "msg": "%s, step with wind_dir=%r: the returned grid (%s) does not fit the returned footprint (%s): %s; case %s" % (how, wd, np.shape(r["grid"][0]), np.shape(r["flx"]), type(ex).__name__, core.canon(case))})
+                break
             worst = max(worst, e)
             if e > TOL_DEG:
                 v.append({"sub": "bearing-series", "sig": "bearing-series/%s/%s" % (how.split("-")[0], "integer-met" if case["ints"] else "float-met"),
@@ -153,7 +161,7 @@ def run(ctx):
         "every (configuration, direction) pair is a distinct non-trivial run; evaluations counts single runs"
     )
     res = ctx.run_cases(case_circle, configs(ctx.tier), sub="circle", chunksize=1)
-    sc = [{"grid": g, "origin": o, "closure": c, "mol": L, "ints": ints, "mol_int": ints and L != 1e9, "start": st, "parallel": (g == "square" and ints)}
+    sc = [{"grid": g, "origin": o, "closure": c, "mol": L, "ints": ints, "mol_int": ints and L != 1e9, "start": st, "parallel": (g == "square" and ints), "cache": not ints}
           for (g, o, c, L, st), ints in itertools.product([("square", "NE", "MOST", -100.0, 0), ("oblong", "greenwich", "MOSTM", 50.0, 7), ("aniso", "SW", "CONSTANT", 1e9, 13)], (True, False))]
     res += ctx.run_cases(case_series, sc, sub="series-drivers", chunksize=1)
     ctx.cov["worst_bearing_error_deg"] = max([r.get("obs", {}).get("worst_bearing_error_deg", 0) for r in res] + [0])
